@@ -1,4 +1,5 @@
-import OrsoVerif.Model.DictRow
+import OrsoVerif.Lemmas.DictRow
+import OrsoVerif.Lemmas.DictSession
 /-!
 # C02 — Dictionary records map onto rows by field name
 
@@ -6,11 +7,9 @@ Property theorems (and the small lemmas they need, all about the model in
 `Model/DictRow.lean`).  A dictionary is a key-unique association list; `Keys d` are its keys.
 -/
 namespace C02
-open DictRow
+open DictRow DictSession Gen.DictCode
 
 variable {α : Type}
-
-def keys (d : List (String × α)) : List String := d.map (·.1)
 
 /-- Each field's value sits at that field's position: cell `i` is the dictionary's value for
 `fields[i]`, or null when the dictionary has no such key; the row is as wide as the field list. -/
@@ -19,31 +18,6 @@ theorem extract_get (null : α) (fields : List String) (d : List (String × α))
     ∧ ∀ i : Nat, (extract null fields d)[i]? = (fields[i]?).map fun f => (lookup f d).getD null := by
   refine ⟨by simp [extract], ?_⟩
   intro i; simp [extract]
-
-theorem lookup_none_of_not_mem (k : String) (d : List (String × α)) (h : k ∉ keys d) :
-    lookup k d = none := by
-  induction d with
-  | nil => rfl
-  | cons p rest ih =>
-    obtain ⟨k', v⟩ := p
-    simp only [keys, List.map_cons, List.mem_cons, not_or] at h
-    have hne : ¬ k' = k := fun e => h.1 e.symm
-    simp only [lookup, hne, if_false]
-    exact ih h.2
-
-theorem lookup_mem (k : String) (v : α) (d : List (String × α)) (hn : (keys d).Nodup)
-    (h : (k, v) ∈ d) : lookup k d = some v := by
-  induction d with
-  | nil => cases h
-  | cons p rest ih =>
-    obtain ⟨k', v'⟩ := p
-    simp only [keys, List.map_cons, List.nodup_cons] at hn
-    rcases List.mem_cons.mp h with h | h
-    · cases h; simp [lookup]
-    · have hk : k ∈ keys rest := List.mem_map.mpr ⟨(k, v), h, rfl⟩
-      have hne : ¬ k' = k := fun e => hn.1 (e ▸ hk)
-      simp only [lookup, hne, if_false]
-      exact ih hn.2 h
 
 /-- Key order does not matter: any permutation of the dictionary's items gives the same lookups,
 hence the same row. -/
@@ -76,16 +50,6 @@ theorem extract_perm (null : α) (fields : List String) (d d' : List (String × 
             exact List.mem_cons_of_mem _ (ih h)
       exact lookup_mem f v d hn (hp.symm.subset hmem)
   simp [extract, hl]
-
-theorem lookup_append_of_not_mem (k : String) (d extra : List (String × α)) (h : k ∉ keys extra) :
-    lookup k (d ++ extra) = lookup k d := by
-  induction d with
-  | nil => simpa [lookup] using lookup_none_of_not_mem k extra h
-  | cons p rest ih =>
-    obtain ⟨k', v⟩ := p
-    by_cases hk : k' = k
-    · simp [lookup, hk]
-    · simp [lookup, hk, ih]
 
 /-- Keys that are not fields are ignored. -/
 theorem extract_ignores_extra (null : α) (fields : List String) (d extra : List (String × α))
@@ -125,49 +89,32 @@ theorem frame_rectangular (null : α) (ds : List (List (String × α))) (names :
         rw [List.getElem?_map, hi]; rfl
       simpa using this
 
+/-- Key order does not matter for a frame of dictionaries either: re-ordering the items of any
+dictionary after the first leaves the frame unchanged (the first dictionary's order IS the column order). -/
+theorem frame_perm (null : α) (d : List (String × α)) (rest rest' : List (List (String × α)))
+    (hl : rest.length = rest'.length)
+    (h : ∀ p ∈ rest.zip rest', (keys p.1).Nodup ∧ p.1.Perm p.2) :
+    frameOfDicts null (d :: rest) = frameOfDicts null (d :: rest') := by
+  simp only [frameOfDicts, List.map_cons]
+  congr 3
+  induction rest generalizing rest' with
+  | nil =>
+    cases rest' with
+    | nil => rfl
+    | cons _ _ => simp at hl
+  | cons a as ih =>
+    cases rest' with
+    | nil => simp at hl
+    | cons b bs =>
+      have hab := h (a, b) (by simp)
+      simp only [List.map_cons]
+      rw [extract_perm null _ a b hab.1 hab.2, ih bs (by simpa using hl) (fun p hp => h p (by simp [hp]))]
+
 /-- `append(dict)` adds exactly the extracted row at the end. -/
 theorem append_row (null : α) (fields : List String) (rows : List (List α)) (d : List (String × α)) :
     append null fields rows d = rows ++ [extract null fields d]
     ∧ (append null fields rows d).length = rows.length + 1 := by
   simp [append]
-
-theorem insert_fresh (k : String) (v : α) (d : List (String × α)) (h : k ∉ keys d) :
-    DictRow.insert k v d = d ++ [(k, v)] := by
-  induction d with
-  | nil => rfl
-  | cons p rest ih =>
-    obtain ⟨k', v'⟩ := p
-    simp only [keys, List.map_cons, List.mem_cons, not_or] at h
-    have hne : ¬ k' = k := fun e => h.1 e.symm
-    simp only [DictRow.insert, hne, if_false, List.cons_append]
-    rw [ih h.2]
-
-theorem keys_zip_sublist (fields : List String) (row : List α) :
-    (keys (fields.zip row)).Sublist fields := by
-  induction fields generalizing row with
-  | nil => simp [keys]
-  | cons n ns ih =>
-    cases row with
-    | nil => simp [keys]
-    | cons v vs =>
-      simp only [keys, List.zip_cons_cons, List.map_cons]
-      exact (ih vs).cons_cons n
-
-theorem foldl_insert_fresh (m acc : List (String × α)) (hn : (keys (acc ++ m)).Nodup) :
-    m.foldl (fun acc p => DictRow.insert p.1 p.2 acc) acc = acc ++ m := by
-  induction m generalizing acc with
-  | nil => simp
-  | cons p rest ih =>
-    obtain ⟨k, v⟩ := p
-    have hk : k ∉ keys acc := by
-      simp only [keys, List.map_append, List.map_cons] at hn
-      have := (List.nodup_append.mp hn).2.2
-      intro hmem
-      exact this k hmem k (by simp) rfl
-    simp only [List.foldl_cons]
-    rw [insert_fresh k v acc hk, ih]
-    · simp
-    · simpa using hn
 
 /-- With duplicate-free field names the dictionary view is the pair view itself. -/
 theorem asDict_eq_asMap (fields : List String) (row : List α) (hn : fields.Nodup) :
@@ -177,24 +124,6 @@ theorem asDict_eq_asMap (fields : List String) (row : List α) (hn : fields.Nodu
     simp only [List.nil_append, asMap]
     exact hn.sublist (keys_zip_sublist fields row))
   simpa using h
-
-theorem lookup_zip (fields : List String) (row : List α) (f : String) :
-    lookup f (fields.zip row) = (indexOf fields f).bind (fun i => row[i]?) := by
-  induction fields generalizing row with
-  | nil => simp [lookup, indexOf]
-  | cons n ns ih =>
-    cases row with
-    | nil =>
-      simp only [List.zip_nil_right, lookup, indexOf]
-      by_cases h : n = f
-      · simp [h]
-      · simp only [h, if_false]
-        cases indexOf ns f <;> simp
-    | cons v vs =>
-      by_cases h : n = f
-      · simp [List.zip_cons_cons, lookup, indexOf, h]
-      · simp only [List.zip_cons_cons, lookup, indexOf, h, if_false, ih vs]
-        cases indexOf ns f <;> simp
 
 /-- The pair, key and value views reproduce the field-to-value association positionally
 (duplicates allowed): pair `i` is `(fields[i], row[i])`. -/
@@ -277,10 +206,357 @@ theorem extract_asDict_roundtrip (null : α) (fields : List String) (row : List 
     simp only [Option.map_some]
     rw [← h1, h]
 
+/-! ## The code, statement by statement (Generated/DictCode.lean assembled in Model/DictRowCode.lean) -/
+
+/-- Loop invariant of `extract_dict_columns` (statements from compiled.pyx): with `r` iterations left at
+index `i`, a buffer holding the first `i` fields' values followed by nulls ends as the whole extracted row;
+no read or write leaves the field tuple / the buffer. -/
+theorem loopFrom_spec (null : α) (fields : List String) (d : List (String × α)) :
+    ∀ (r i : Nat) (buf : List α), i + r = fields.length →
+      buf = (fields.take i).map (fun f => (lookup f d).getD null) ++ List.replicate r null →
+      loopFrom null fields d r i buf = some (fields.map fun f => (lookup f d).getD null) := by
+  intro r
+  induction r with
+  | zero =>
+    intro i buf hi hb
+    have : i = fields.length := by omega
+    subst this
+    simp [loopFrom, hb]
+  | succ r ih =>
+    intro i buf hi hb
+    have hlt : i < fields.length := by omega
+    have hA : ((fields.take i).map (fun f => (lookup f d).getD null)).length = i := by
+      simp only [List.length_map, List.length_take]; omega
+    have hlen : buf.length = fields.length := by
+      rw [hb, List.length_append, hA, List.length_replicate]; omega
+    have hf : fields[i]? = some fields[i] := List.getElem?_eq_getElem hlt
+    have hset : ∀ x, buf.set i x = (fields.take i).map (fun f => (lookup f d).getD null) ++ x :: List.replicate r null := by
+      intro x
+      rw [hb, List.set_append, hA, if_neg (Nat.lt_irrefl i), Nat.sub_self, List.replicate_succ, List.set_cons_zero]
+    have hnext : ∀ x, x = (lookup fields[i] d).getD null →
+        loopFrom null fields d r (i + 1) (buf.set i x) = some (fields.map fun f => (lookup f d).getD null) := by
+      intro x hx
+      apply ih (i + 1) _ (by omega)
+      rw [hset x, List.take_succ_eq_append_getElem hlt, List.map_append, List.append_assoc, hx]
+      rfl
+    unfold loopFrom
+    simp only [keyIndex, foundTest, thenStoreIndex, elseStoreIndex, thenStoresValue, elseStoresValue]
+    simp only [Int.ofNat_eq_natCast, Int.toNat_natCast, hf]
+    have h1 : ¬ ((i : Int) < 0) := by omega
+    have h2 : ¬ ((i : Int) ≥ (buf.length : Int)) := by omega
+    have h3 : ¬ ((buf.length : Int) ≤ (i : Int)) := by omega
+    cases hv : lookup fields[i] d with
+    | none => simpa [h1, h2, h3] using hnext null (by simp [hv])
+    | some x => simpa [h1, h2, h3] using hnext x (by simp [hv])
+
+/-- The loop of `extract_dict_columns`, as extracted from compiled.pyx, computes the specification:
+per field the dictionary's value, null when absent (refinement of `extract`). -/
+theorem extractLoop_eq_extract (null : α) (fields : List String) (d : List (String × α)) :
+    extractLoop null fields d = some (extract null fields d) := by
+  unfold extractLoop
+  have h : ¬ (loopCount (Int.ofNat fields.length) < 0 ∨ bufferSize (Int.ofNat fields.length) < 0) := by
+    simp only [loopCount, bufferSize, Int.ofNat_eq_natCast]; omega
+  rw [if_neg h]
+  simp only [loopCount, bufferSize, Int.ofNat_eq_natCast, Int.toNat_natCast]
+  exact loopFrom_spec null fields d fields.length 0 _ (by omega) (by simp)
+
+/-- `Row.__new__` on a dictionary for any class made with `tuples_only = False` (the form the session
+invariant supplies): the extracted row. -/
+theorem rowNew_false (null : α) (ofKey : String → α) (fields : List String) (d : List (String × α)) :
+    rowNew null ofKey (createClass fields false) (.dict d) = some (extract null fields d) := by
+  simp [rowNew, createClass, classHandlesDict, newGuardIsDict, newExtractorArgsInOrder, extractLoop_eq_extract]
+
+/-- `append(dict)` on a frame whose factory was made with `tuples_only = False`. -/
+theorem appendCode_false (null : α) (ofKey : String → α) (names : List String) (rows : List (List α))
+    (d : List (String × α)) :
+    appendCode null ofKey (createClass names false) rows d = some (rows ++ [extract null names d]) := by
+  simp [appendCode, appendBuildsRowWithFactory, appendStoresNewRow, rowNew_false]
+
+/-- `Row.__new__` on a dictionary, for a class made by `create_class(fields)` with the default
+`tuples_only`: the extracted row. -/
+theorem rowNew_dict (null : α) (ofKey : String → α) (fields : List String) (d : List (String × α)) :
+    rowNew null ofKey (createClass fields tuplesOnlyDefault) (.dict d) = some (extract null fields d) := by
+  rw [show tuplesOnlyDefault = false from rfl]
+  exact rowNew_false null ofKey fields d
+
+/-- Why the flag matters (the failure mode of a class whose `__new__` is `tuple.__new__`): called with
+a dictionary it yields the dictionary's KEYS, which is not the extracted row. -/
+theorem rowNew_tuplesOnly_keys (null : α) (ofKey : String → α) (fields : List String) (d : List (String × α)) :
+    rowNew null ofKey (createClass fields true) (.dict d) = some (d.map fun p => ofKey p.1) := by
+  simp [rowNew, createClass, classHandlesDict]
+
+/-- `DataFrame(dictionaries)` as written (class from the first dictionary's keys, one list of `.get`
+cells per dictionary, no filter, first dictionary included) is the specification `frameOfDicts`. -/
+theorem frameOfDictsCode_eq (null : α) (ofKey : String → α) (ds : List (List (String × α))) :
+    frameOfDictsCode null ofKey ds = frameOfDicts null ds := by
+  cases ds with
+  | nil => rfl
+  | cons first rest =>
+    simp only [frameOfDictsCode, frameSchemaIsFirstKeys, frameLookupKeysAreFirstKeys, frameCellIsGetWithNullDefault,
+      frameSourceIncludesFirst, rowNew, and_self, not_true_eq_false, if_false, if_true]
+    rw [List.filter_eq_self.mpr (by simp [frameRowKept]), mapM_some]
+    rfl
+
+/-- `append(dict)` as written, on a frame made from dictionaries or from rows: the specification `append`. -/
+theorem appendCode_eq (null : α) (ofKey : String → α) (names : List String) (rows : List (List α))
+    (d : List (String × α)) :
+    appendCode null ofKey (createClass names frameDictsTuplesOnly) rows d = some (append null names rows d)
+    ∧ appendCode null ofKey (createClass names frameRowsTuplesOnly) rows d = some (append null names rows d) := by
+  rw [show frameDictsTuplesOnly = false from rfl, show frameRowsTuplesOnly = false from rfl]
+  exact ⟨appendCode_false null ofKey names rows d, appendCode_false null ofKey names rows d⟩
+
+/-- `Row.get` as written is the specification `get` (on a row as wide as its field list). -/
+theorem getCode_eq (fields : List String) (row : List α) (hl : row.length = fields.length)
+    (item : String) (default : α) :
+    getCode fields row item default = some (get fields row item default) := by
+  unfold getCode DictRow.get
+  cases h : indexOf fields item with
+  | none => simp [getAbsentReturnsDefault]
+  | some i =>
+    have hi := (indexOf_lt fields item i h).1
+    have hr : i < row.length := by omega
+    simp [getIndex, List.getElem?_eq_getElem hr]
+
+/-- The views as written are the specification views; the object `as_json` serialises is the dictionary view. -/
+theorem views_code_eq (fields : List String) (row : List α) :
+    asMapExpr fields row = asMap fields row ∧ asDictExpr fields row = asDict fields row
+    ∧ valuesExpr fields row = row ∧ keysExpr fields row = fields
+    ∧ asJsonViewExpr fields row = asDict fields row := ⟨rfl, rfl, rfl, rfl, rfl⟩
+
+/-- Key and value views: the pair view is the two zipped, and unzips to them (duplicates allowed). -/
+theorem views_unzip (fields : List String) (row : List α) (hl : row.length = fields.length) :
+    asMapExpr fields row = (keysExpr fields row).zip (valuesExpr fields row)
+    ∧ (asMapExpr fields row).map Prod.fst = keysExpr fields row
+    ∧ (asMapExpr fields row).map Prod.snd = valuesExpr fields row := by
+  have hz : asMapExpr fields row = fields.zip row := (views_code_eq fields row).1
+  have hk : keysExpr fields row = fields := (views_code_eq fields row).2.2.2.1
+  have hv : valuesExpr fields row = row := (views_code_eq fields row).2.2.1
+  rw [hz, hk, hv]
+  refine ⟨rfl, ?_, ?_⟩
+  · rw [List.map_fst_zip]; omega
+  · rw [List.map_snd_zip]; omega
+
+/-- The dictionary view for ANY field list (repeated names included): a dictionary (unique keys) holding
+exactly the field names, each with the value at its LAST position. -/
+theorem asDict_dup_spec (fields : List String) (row : List α) :
+    (keys (asDict fields row)).Nodup
+    ∧ (∀ f, lookup f (asDict fields row) = lookup f (asMap fields row).reverse)
+    ∧ (row.length = fields.length → ∀ f, f ∈ keys (asDict fields row) ↔ f ∈ fields) := by
+  refine ⟨?_, ?_, ?_⟩
+  · exact nodup_keys_foldl_insert _ [] (by simp [keys])
+  · intro f
+    have := lookup_foldl_insert f (asMap fields row) []
+    simpa [asDict, ofPairs, lookup] using this
+  · intro hl f
+    have h := mem_keys_foldl_insert f (asMap fields row) []
+    have hk : keys (asMap fields row) = fields := by
+      simp only [keys, asMap]
+      rw [List.map_fst_zip]; omega
+    have h0 : f ∉ keys ([] : List (String × α)) := by simp [keys]
+    unfold asDict ofPairs
+    rw [h, hk]
+    exact ⟨fun x => x.elim id (fun y => absurd y h0), Or.inl⟩
+
+/-- `get` for ANY field list: the value at the FIRST position of the name. -/
+theorem get_dup_first (fields : List String) (row : List α) (f : String) (default : α) (i : Nat)
+    (h : indexOf fields f = some i) :
+    fields[i]? = some f ∧ (∀ j, j < i → fields[j]? ≠ some f) ∧ get fields row f default = (row[i]?).getD default := by
+  obtain ⟨_, h2, h3⟩ := indexOf_lt fields f i h
+  exact ⟨h2, h3, by simp [DictRow.get, h]⟩
+/-! ## Sessions: several frames, any order of operations (Model/DictSession.lean) -/
+
+/-- One operation under the invariant: the frame count, the invariant, and what happens to frame `k`. -/
+theorem step_spec (null : α) (ofKey : String → α) (s : List (Frame α)) (hinv : Inv s) (op : Op α) :
+    (step null ofKey s op).1.length = grows s.length op
+    ∧ Inv (step null ofKey s op).1
+    ∧ ∀ k f, s[k]? = some f → (step null ofKey s op).1[k]? = some (withDicts null f (dictOf k s.length op)) := by
+  have hwd0 : ∀ f : Frame α, withDicts null f [] = f := by intro f; simp [withDicts]
+  cases op with
+  | ctx => exact ⟨rfl, hinv, fun k f h => by simpa [step, dictOf, hwd0] using h⟩
+  | frame ds =>
+    cases ds with
+    | nil => exact ⟨rfl, hinv, fun k f h => by simpa [step, dictOf, hwd0] using h⟩
+    | cons d0 rest =>
+      have hc : frameOfDictsCode null ofKey (d0 :: rest) = some (d0.map (·.1), (d0 :: rest).map (extract null (d0.map (·.1)))) := by
+        rw [frameOfDictsCode_eq]; rfl
+      refine ⟨by simp [step, hc, grows], ?_, ?_⟩
+      · intro f hf
+        simp only [step, hc, List.mem_append, List.mem_singleton] at hf
+        rcases hf with hf | hf
+        · exact hinv f hf
+        · subst hf; rfl
+      · intro k f h
+        have hk : k < s.length := (List.getElem?_eq_some_iff.mp h).1
+        simp [step, hc, dictOf, hwd0, List.getElem?_append_left hk, h]
+  | rows fields rows =>
+    refine ⟨by simp [step, grows], ?_, ?_⟩
+    · intro f hf
+      simp only [step, List.mem_append, List.mem_singleton] at hf
+      rcases hf with hf | hf
+      · exact hinv f hf
+      · subst hf; rfl
+    · intro k f h
+      have hk : k < s.length := (List.getElem?_eq_some_iff.mp h).1
+      simp [step, dictOf, hwd0, List.getElem?_append_left hk, h]
+  | append i d probes dflt =>
+    cases ht : s[i % s.length]? with
+    | none =>
+      have h0 := (target_none_iff s i).mp ht
+      refine ⟨by simp [step, ht, grows], by simpa [step, ht] using hinv, ?_⟩
+      intro k f h
+      have := (List.getElem?_eq_some_iff.mp h).1
+      omega
+    | some g =>
+      have hg : g.tuplesOnly = false := hinv g (List.mem_of_getElem? ht)
+      have hlt : i % s.length < s.length := (List.getElem?_eq_some_iff.mp ht).1
+      have hn0 : s.length ≠ 0 := by omega
+      have ha := appendCode_false null ofKey g.names g.rows d
+      refine ⟨by simp [step, ht, hg, ha, grows], ?_, ?_⟩
+      · intro f hf
+        simp only [step, ht, hg, ha] at hf
+        rcases List.mem_or_eq_of_mem_set hf with hf | hf
+        · exact hinv f hf
+        · subst hf; rfl
+      · intro k f h
+        simp only [step, ht, hg, ha, dictOf, List.getElem?_set]
+        by_cases hk : i % s.length = k
+        · subst hk
+          rw [ht] at h; cases h
+          simp [hn0, hlt, withDicts, hg]
+        · simp [hk, h, hwd0, hn0]
+  | row fields d probes dflt =>
+    have hr : rowNew null ofKey (createClass fields tuplesOnlyDefault) (.dict d) = some (extract null fields d) :=
+      rowNew_dict null ofKey fields d
+    exact ⟨by simp [step, hr, grows], by simpa [step, hr] using hinv, fun k f h => by simpa [step, hr, dictOf, hwd0] using h⟩
+  | reread i =>
+    cases ht : s[i % s.length]? with
+    | none => exact ⟨by simp [step, ht, grows], by simpa [step, ht] using hinv, fun k f h => by simpa [step, ht, dictOf, hwd0] using h⟩
+    | some g => exact ⟨by simp [step, ht, grows], by simpa [step, ht] using hinv, fun k f h => by simpa [step, ht, dictOf, hwd0] using h⟩
+  | derive i how =>
+    cases ht : s[i % s.length]? with
+    | none =>
+      have h0 := (target_none_iff s i).mp ht
+      exact ⟨by simp [step, grows, h0], by simpa [step, ht] using hinv, fun k f h => by simpa [step, ht, dictOf, hwd0] using h⟩
+    | some g =>
+      have hlt : i % s.length < s.length := (List.getElem?_eq_some_iff.mp ht).1
+      have hn0 : s.length ≠ 0 := by omega
+      refine ⟨by simp [step, ht, grows, hn0], ?_, ?_⟩
+      · intro f hf
+        simp only [step, ht, List.mem_append, List.mem_singleton] at hf
+        rcases hf with hf | hf
+        · exact hinv f hf
+        · subst hf; rfl
+      · intro k f h
+        have hk : k < s.length := (List.getElem?_eq_some_iff.mp h).1
+        simp [step, ht, dictOf, hwd0, List.getElem?_append_left hk, h]
+
+/-- Any session, from any state whose factories handle dictionaries: the number of frames, the invariant,
+and for every frame that existed at the start, exactly its rows followed by one extracted row per
+dictionary appended to it, in order — whatever else was interleaved. -/
+theorem run_history (null : α) (ofKey : String → α) (ops : List (Op α)) :
+    ∀ s : List (Frame α), Inv s →
+      (run null ofKey s ops).1.length = growsAll s.length ops
+      ∧ Inv (run null ofKey s ops).1
+      ∧ ∀ k f, s[k]? = some f →
+          (run null ofKey s ops).1[k]? = some (withDicts null f (dictsTo k s.length ops)) := by
+  induction ops with
+  | nil =>
+    intro s hinv
+    exact ⟨rfl, hinv, fun k f h => by simpa [run, dictsTo, withDicts] using h⟩
+  | cons op ops ih =>
+    intro s hinv
+    obtain ⟨h1, h2, h3⟩ := step_spec null ofKey s hinv op
+    obtain ⟨i1, i2, i3⟩ := ih (step null ofKey s op).1 h2
+    simp only [run]
+    refine ⟨by rw [i1, h1]; rfl, i2, ?_⟩
+    intro k f h
+    rw [i3 k _ (h3 k f h), withDicts_append, h1]
+    rfl
+
+/-- Other features do not matter: a session with its `ctx` operations erased ends in the same frames. -/
+theorem run_erase_ctx (null : α) (ofKey : String → α) (ops : List (Op α)) :
+    ∀ s : List (Frame α),
+      (run null ofKey s (ops.filter fun o => match o with | .ctx => false | _ => true)).1 = (run null ofKey s ops).1 := by
+  induction ops with
+  | nil => intro s; rfl
+  | cons op ops ih =>
+    intro s
+    cases op <;> simp [run, step, ih]
+
+
+/-- A frame made from dictionaries anywhere in a session, then any operations at all: it keeps the first
+dictionary's columns and holds exactly one row per dictionary — those given to the constructor and those
+appended to it since, in order — each the extracted row, each as wide as the column list. -/
+theorem session_dict_frame (null : α) (ofKey : String → α) (s : List (Frame α)) (hinv : Inv s)
+    (d0 : List (String × α)) (rest : List (List (String × α))) (ops : List (Op α)) :
+    ∃ g, (run null ofKey s (.frame (d0 :: rest) :: ops)).1[s.length]? = some g
+      ∧ g.names = keys d0
+      ∧ g.rows = ((d0 :: rest) ++ dictsTo s.length (s.length + 1) ops).map (extract null (keys d0))
+      ∧ g.rows.length = (d0 :: rest).length + (dictsTo s.length (s.length + 1) ops).length
+      ∧ ∀ r ∈ g.rows, r.length = g.names.length := by
+  have hc : frameOfDictsCode null ofKey (d0 :: rest) = some (d0.map (·.1), (d0 :: rest).map (extract null (d0.map (·.1)))) := by
+    rw [frameOfDictsCode_eq]; rfl
+  obtain ⟨h1, h2, _⟩ := step_spec null ofKey s hinv (.frame (d0 :: rest))
+  have hs : (step null ofKey s (.frame (d0 :: rest))).1
+      = s ++ [⟨keys d0, (d0 :: rest).map (extract null (keys d0)), false⟩] := by
+    simp [step, hc, keys, show frameDictsTuplesOnly = false from rfl]
+  obtain ⟨_, _, i3⟩ := run_history null ofKey ops _ h2
+  have hget : (step null ofKey s (.frame (d0 :: rest))).1[s.length]?
+      = some ⟨keys d0, (d0 :: rest).map (extract null (keys d0)), false⟩ := by
+    rw [hs]; simp
+  have := i3 s.length _ hget
+  refine ⟨_, by simpa [run] using this, rfl, ?_, ?_, ?_⟩
+  · rw [hs]; simp [withDicts]
+  · rw [hs]; simp [withDicts]; omega
+  · rw [hs]
+    intro r hr
+    have hm : r ∈ ((d0 :: rest) ++ dictsTo s.length (s.length + 1) ops).map (extract null (keys d0)) := by
+      simpa [withDicts] using hr
+    obtain ⟨d, _, hd⟩ := List.mem_map.mp hm
+    subst hd; simp [extract, withDicts]
+
+/-- What the operations report (this is what the correspondence compares): a free-standing row is the
+extracted row with its views; an append reports the frame's rows with the extracted row added. -/
+theorem step_outputs (null : α) (ofKey : String → α) (s : List (Frame α)) (hinv : Inv s) :
+    (∀ fields d probes dflt,
+      (step null ofKey s (.row fields d probes dflt)).2
+        = .row ⟨extract null fields d, asMap fields (extract null fields d), asDict fields (extract null fields d),
+                probes.map fun p => some (get fields (extract null fields d) p dflt)⟩)
+    ∧ (∀ i d probes dflt f, s[i % s.length]? = some f →
+      (step null ofKey s (.append i d probes dflt)).2
+        = .appended (f.rows ++ [extract null f.names d])
+            ⟨extract null f.names d, asMap f.names (extract null f.names d), asDict f.names (extract null f.names d),
+             probes.map fun p => some (get f.names (extract null f.names d) p dflt)⟩) := by
+  constructor
+  · intro fields d probes dflt
+    have hr : rowNew null ofKey (createClass fields tuplesOnlyDefault) (.dict d) = some (extract null fields d) :=
+      rowNew_dict null ofKey fields d
+    have hl : (extract null fields d).length = fields.length := by simp [extract]
+    simp only [step, hr, viewsOf]
+    congr 2
+    exact List.map_congr_left fun p _ => getCode_eq fields _ hl p dflt
+  · intro i d probes dflt f ht
+    have hg : f.tuplesOnly = false := hinv f (List.mem_of_getElem? ht)
+    have ha := appendCode_false null ofKey f.names f.rows d
+    have hl : (extract null f.names d).length = f.names.length := by simp [extract]
+    simp only [step, ht, hg, ha, viewsOf, List.getLast?_append, List.getLast?_singleton, Option.some_or, Option.getD_some]
+    congr 2
+    exact List.map_congr_left fun p _ => getCode_eq f.names _ hl p dflt
+
 /-- Non-vacuity. -/
 example : extract 0 ["b", "a", "z"] [("a", 1), ("b", 2), ("x", 9)] = [2, 1, 0] := by decide
 example : frameOfDicts 0 [[("a", 1), ("b", 2)], [("b", 3)], [("c", 4), ("a", 5)]]
     = some (["a", "b"], [[1, 2], [0, 3], [5, 0]]) := by decide
 example : asDict ["a", "b", "a"] [1, 2, 3] = [("a", 3), ("b", 2)] ∧ get ["a", "b", "a"] [1, 2, 3] "a" 0 = 1 := by decide
+
+example : frameOfDicts 0 [[("a", 1), ("b", 2)], [("b", 3), ("a", 4)]] = frameOfDicts 0 [[("a", 1), ("b", 2)], [("a", 4), ("b", 3)]] := by decide
+example : rowNew 0 (fun _ => 7) (createClass ["a", "b"] tuplesOnlyDefault) (.dict [("b", 1), ("x", 3)]) = some [0, 1]
+    ∧ rowNew 0 (fun _ => 7) (createClass ["a", "b"] true) (.dict [("b", 1), ("x", 3)]) = some [7, 7] := by decide
+example : ((run 0 (fun _ => 7) [] [.ctx, .frame [[("a", 1), ("b", 2)]], .append 0 [("b", 5), ("z", 9)] [] 0, .ctx,
+      .rows ["b"] [[8]], .append 2 [("a", 4)] [] 0, .append 1 [("b", 6)] [] 0, .derive 0 (.slice (some 2))]).1.map (·.rows))
+    = [[[1, 2], [0, 5], [4, 0]], [[8], [6]], [[1, 2], [0, 5]]] := by decide
+example : dictsTo 0 1 ([.append 0 [("b", 5)] [] 0, .ctx, .rows ["b"] [], .append 2 [("a", 4)] [] 0, .append 1 [("b", 6)] [] 0] : List (Op Nat))
+    = [[("b", 5)], [("a", 4)]] := by decide
+example : Inv ([⟨["a"], [[1]], false⟩] : List (Frame Nat)) := by intro f hf; simp at hf; subst hf; rfl
 
 end C02
